@@ -1,4 +1,5 @@
 import Vflow.Proofs.JsonTree
+import Vflow.Props.C08
 /-!
 # C05 — every published message is valid JSON that faithfully carries the decode
 
@@ -78,6 +79,18 @@ theorem v9_marshal_valid (a : Bytes) (hdr : List Nat) (recs : List (List JField)
   rw [v9_marshal_eq_render]; exact derives_render _ (v9_tree_wf a hdr recs hf)
 
 
+/-! ## NetFlow v5 (proved in `Vflow.Props.C08`, re-exported) -/
+
+/-- **C05 (NetFlow v5, faithfulness)**: the published octets are the rendering of `v5Tree a m` — agent address, the
+nine header fields and, per flow, the twenty fields by name; addresses in dotted-quad text, all other
+fields the exact decimal text.  Relies on the obligations `C08.gen_v5Agent/gen_v5Header/gen_v5Flow`. -/
+theorem v5_marshal_eq_render (a : Bytes) (m : V5.Msg) : V5.marshal (ipBytes a) m = render (v5Tree a m) :=
+  C08.v5_marshal_eq_render a m
+
+/-- **C05 (NetFlow v5, validity)**: unconditional (no float or string fields) -/
+theorem v5_marshal_valid (a : Bytes) (m : V5.Msg) : DVal (V5.marshal (ipBytes a) m) (v5Tree a m) :=
+  C08.v5_marshal_valid a m
+
 /-! ## What the leaves carry (re-exported from `Vflow.Proofs.JsonLex`) -/
 
 /-- numbers are exact: the emitted decimal text is an RFC 8259 number and reads back, in base 10, as the
@@ -103,10 +116,15 @@ def exampleRecs : List (List JField) :=
     ⟨5, 0, .f64 0x3FF8000000000000, [49, 46, 53, 69, 43, 48, 48]⟩], []]
 
 example : Ipfix.marshal (ipBytes [192, 0, 2, 1]) [10, 64, 1700000000, 7, 42] exampleRecs =
-    ("{\"AgentID\":\"192.0.2.1\",\"Header\":{\"Version\":10,\"Length\":64,\"ExportTime\":1700000000," ++
-     "\"SequenceNo\":7,\"DomainID\":42},\"DataSets\":[[{\"I\":8,\"V\":\"a\\\"b\"},{\"I\":1,\"V\":true,\"E\":9}," ++
-     "{\"I\":2,\"V\":\"NaN\"},{\"I\":3,\"V\":-9223372036854775808},{\"I\":4,\"V\":18446744073709551615}," ++
-     "{\"I\":27,\"V\":\"2001:db8::1\"},{\"I\":5,\"V\":1.5E+00}],[]]}").toUTF8.toList := by decide +kernel
+    txt ["{\"AgentID\":\"192.0.2.1\",\"Header\":{\"Versio",
+      "n\":10,\"Length\":64,\"ExportTime\":170000000",
+      "0,\"SequenceNo\":7,\"DomainID\":42},\"DataSet",
+      "s\":[[{\"I\":8,\"V\":\"a\\\"b\"},{\"I\":1,\"V\":true,",
+      "\"E\":9},{\"I\":2,\"V\":\"NaN\"},{\"I\":3,\"V\":-922",
+      "3372036854775808},{\"I\":4,\"V\":18446744073",
+      "709551615},{\"I\":27,\"V\":\"2001:db8::1\"},{\"",
+      "I\":5,\"V\":1.5E+00}],[]]}"] := by
+  decide +kernel
 
 /-- the float assumption holds for the example (`NaN` is a string body, `1.5E+00` a number) -/
 theorem example_floatOk : ∀ r ∈ exampleRecs, ∀ f ∈ r, FloatOk f := by decide
@@ -116,8 +134,11 @@ example : DVal (Ipfix.marshal (ipBytes [192, 0, 2, 1]) [10, 64, 1700000000, 7, 4
   ipfix_marshal_valid _ _ _ example_floatOk
 
 example : V9.marshal (ipBytes [192, 0, 2, 1]) [9, 1, 1000, 1700000000, 7, 42] [[⟨1, 0, .u32 1500, []⟩]] =
-    ("{\"AgentID\":\"192.0.2.1\",\"Header\":{\"Version\":9,\"Count\":1,\"SysUpTime\":1000,\"UNIXSecs\":1700000000," ++
-     "\"SeqNum\":7,\"SrcID\":42},\"DataSets\":[[{\"I\":1,\"V\":1500}]]}").toUTF8.toList := by decide +kernel
+    txt ["{\"AgentID\":\"192.0.2.1\",\"Header\":{\"Versio",
+      "n\":9,\"Count\":1,\"SysUpTime\":1000,\"UNIXSec",
+      "s\":1700000000,\"SeqNum\":7,\"SrcID\":42},\"Da",
+      "taSets\":[[{\"I\":1,\"V\":1500}]]}"] := by
+  decide +kernel
 
 /-- the hypotheses are not trivially satisfiable: a float field whose text is not a number violates `FloatOk` -/
 example : ¬ FloatOk ⟨5, 0, .f64 0x3FF8000000000000, [120]⟩ := by decide
